@@ -138,6 +138,7 @@ type TreeGen struct {
 	NoNestAfter    bool // SetNoNesting(true) on a random fifth of the nodes AFTER their content is in ("never affects elements already present")
 	ReadOnlyNodes  bool // SetReadOnly(true) on a random sixth of the nodes (stacks and Conditions) after assembly: neutral for every query
 	RejectValidity bool // a rejecting validity closure on a random eighth of the NESTED stack nodes (never the root)
+	OddEncap       bool // some nodes get an over-long (3-string) encapsulation pattern in front of a usable one: accepted and stored, never rendered - only for checks without a renderer model
 	ZooLeaves      bool // one leaf in twelve is a value of an unusual Go type (genZooLeaf): only for checks that treat leaves as opaque
 	EqPolicies     bool // an accepting or rejecting equality closure on a random tenth of the nodes
 	WideRuns       bool // at most one node per tree additionally gets a run of 12..40 plain leaves (not counted against Budget)
@@ -205,6 +206,7 @@ func (st *treeState) stackOpts(t *rapid.T, n *Node) {
 		if rapid.IntRange(0, 3).Draw(t, "defaultopts") == 0 {
 			bits = 0
 		}
+		n.OptForm = rapid.IntRange(0, 4).Draw(t, "optform")
 		n.Paren = bits&1 != 0
 		n.Fold = bits&2 != 0
 		n.NoPad = bits&4 != 0
@@ -216,6 +218,12 @@ func (st *treeState) stackOpts(t *rapid.T, n *Node) {
 			n.Delim = rapid.SampledFrom([]string{",", " ", "·", ";", ", "}).Draw(t, "delim")
 		}
 		n.Encap = genEncap(t)
+		if g.OddEncap && rapid.IntRange(0, 5).Draw(t, "oddencap") == 0 {
+			n.Encap = append([][]string{{"<", ">", "!"}}, n.Encap...)
+			if len(n.Encap) == 1 {
+				n.Encap = append(n.Encap, []string{"'"})
+			}
+		}
 	}
 	if g.Caps && rapid.IntRange(0, 5).Draw(t, "hascap") == 0 {
 		n.Cap = len(n.Elems) + rapid.IntRange(0, 3).Draw(t, "capextra")
@@ -344,6 +352,7 @@ func (st *treeState) cond(t *rapid.T, depth int) Node {
 	}
 	if g.Options {
 		bits := rapid.IntRange(0, 7).Draw(t, "condopts")
+		n.OptForm = rapid.IntRange(0, 4).Draw(t, "cond-optform")
 		n.Paren = bits&1 != 0
 		n.NoPad = bits&2 != 0
 		if bits&4 != 0 {
